@@ -15,7 +15,8 @@ TRUSTED = [
     "fracmanager/export_verif_c14.go",
 ]
 ASSUME = [
-    "document MIDs, creation times and the query's upper end are < 2^63 milliseconds (int64(mid) conversion in MID.Time)",
+    "stored document MIDs are < 2^63 milliseconds (ingestion guarantees it); query ends and requested IDs range over all "
+    "uint64 since repair 6d376ea (midToIndex maps a MID beyond int64 to the overflow bucket)",
     "the ID (MID 0, RID 0) is not stored when a query starts at 0 (getLIDsBorders excludes it; unreachable through ingest)",
     "IDs of a fraction are listed in descending order by its index (checked on every real fraction: tbl_ok)",
     "search merge / limit / ordering across fractions are other properties (C16/C19): the store-level comparison is a test",
@@ -24,7 +25,7 @@ RULE = ("exhaustive: util.Bitmask all subsets x all intervals (small sizes), MID
         "single/pair additions x all query intervals, getLIDsBorders all sub-lists of a small ID universe x all (from,to); "
         "random: frac.Info with documents spread <10min .. >24h before creation (+-1 ms around the 10 min / 24 h thresholds, far "
         "past / future), real fractions active / sealed / restored from index header and .frac-cache, multi-block sealed "
-        "fractions; query ends on/next to document times, bucket borders, fraction borders. non-trivial = the occupancy map "
+        "fractions; query ends on/next to document times, bucket borders, fraction borders, and >= 2^63 (2^63, MaxUint64); fetch requests that also name absent IDs with MID >= 2^63; permanent regression class info-regression-to>=2^63. non-trivial = the occupancy map "
         "(not the borders) prunes a query, or the LID borders narrow a non-empty scan on both sides; distinct by input")
 
 
